@@ -319,6 +319,7 @@ pub struct EncLayout {
     pub int16_size: i32,
 }
 
+#[derive(Clone)]
 pub struct EncTable {
     pub name: String,
     pub cols: Vec<ColDef>,
